@@ -24,6 +24,11 @@ pub struct Case {
     pub scheme: Scheme,
     pub inband_fti: bool,
     pub size: usize,
+    /// > 0: the FDT is cut into 64-byte symbols and the sender's clock advances by this much after
+    /// every FDT packet (a paced / partly repeated FDT): the instance completes `spread` after its
+    /// first packet and the estimate of the sender clock must follow the latest SCT, not the first
+    #[serde(default)]
+    pub fdt_step_ms: u64,
 }
 
 fn shift(t: SystemTime, ms: i128) -> SystemTime {
@@ -58,6 +63,10 @@ fn sct_high_only(p: &[u8]) -> Vec<u8> {
 }
 
 pub struct Outcome {
+    /// sender time between the first and the last FDT packet (ms)
+    pub spread_ms: i128,
+    /// arrival of the object relative to the arrival of the first FDT packet (ms)
+    pub obj_rel_first_ms: i128,
     pub delivered: bool,
     pub any_writer: bool,
     pub traces: Vec<String>,
@@ -65,7 +74,8 @@ pub struct Outcome {
 
 pub fn run_once(c: &Case, offset_s: i64) -> Result<Outcome, String> {
     let al = if matches!(c.scheme, Scheme::RaptorQ | Scheme::Raptor) { 4 } else { 1 };
-    let mut sender = SenderSpec::simple(OtiSpec { scheme: Scheme::NoCode, e: 4096, b: 8, parity: 0, inband_fti: true, al: 1, nsub: 1 });
+    let paced = c.fdt_step_ms > 0;
+    let mut sender = SenderSpec::simple(OtiSpec { scheme: Scheme::NoCode, e: if paced { 64 } else { 4096 }, b: 64, parity: 0, inband_fti: true, al: 1, nsub: 1 });
     sender.fdt_duration_s = c.duration_s;
     sender.inband_sct = c.sct;
     let mut o = ObjSpec::simple(c.size, 19);
@@ -74,18 +84,49 @@ pub fn run_once(c: &Case, offset_s: i64) -> Result<Outcome, String> {
     let mut drv = SenderDriver::new(&sender)?;
     let (toi, bytes) = drv.add(&o)?;
     drv.publish()?;
+    let s0 = drv.now;
+    if paced {
+        // the sender's clock moves on after every FDT packet; the object follows the complete FDT (C11)
+        for _ in 0..10_000 {
+            match drv.read() {
+                Some(i) => {
+                    let is_fdt = drv.log[i].pkt().map(|(_, d)| d.lct.toi == 0).unwrap_or(false);
+                    if !is_fdt {
+                        break;
+                    }
+                    drv.advance(Duration::from_millis(c.fdt_step_ms));
+                }
+                None => break,
+            }
+        }
+    }
     drv.drain(10_000)?;
     let mut fdt: Vec<Vec<u8>> = vec![];
+    let mut fdt_t: Vec<SystemTime> = vec![];
     let mut obj: Vec<Vec<u8>> = vec![];
+    let mut ids = std::collections::BTreeSet::new();
     for r in &drv.log {
         if let Some((b, d)) = r.pkt() {
             if d.lct.toi == 0 {
+                if !obj.is_empty() {
+                    // an FDT repetition behind the object: not part of this scenario
+                    continue;
+                }
+                ids.insert(d.fdt.map(|f| f.1));
                 fdt.push(b.clone());
+                fdt_t.push(r.t);
             } else {
                 obj.push(b.clone());
             }
         }
     }
+    if ids.len() > 1 {
+        return Err("DOMAIN: the sender renewed the FDT instance while it was being paced".into());
+    }
+    let spread_ms: i128 = match (fdt_t.first(), fdt_t.last()) {
+        (Some(a), Some(b)) => b.duration_since(*a).map(|d| d.as_millis() as i128).unwrap_or(0),
+        _ => 0,
+    };
     // RFC 5651 allows EXT_TIME with SCT-High only (whole seconds): an independent sender may use that
     // form; the estimate of the sender clock is then exact to the second, which the +-2 s margin covers
     if c.sct && c.size % 2 == 0 && c.fdt_delay_ms % 2 == 1 {
@@ -93,14 +134,20 @@ pub fn run_once(c: &Case, offset_s: i64) -> Result<Outcome, String> {
             *p = sct_high_only(p);
         }
     }
-    let s0 = t0();
-    let r_f = shift(s0, offset_s as i128 * 1000 + c.fdt_delay_ms as i128);
-    let r_o = shift(r_f, c.obj_gap_ms as i128);
+    let transit = offset_s as i128 * 1000 + c.fdt_delay_ms as i128;
+    // arrival of every FDT packet = its sender time + clock offset + transit delay
+    let arrivals: Vec<SystemTime> = fdt_t.iter().map(|t| shift(*t, transit)).collect();
+    let r_first = shift(s0, transit);
+    let r_f = shift(r_first, spread_ms);
+    // the object gap counts from the first FDT packet; an object "after" the FDT never precedes its last packet
+    let r_o = if c.obj_gap_ms >= 0 { shift(r_first, (c.obj_gap_ms as i128).max(spread_ms)) } else { shift(r_first, c.obj_gap_ms as i128) };
+    let obj_rel_first_ms: i128 = if c.obj_gap_ms >= 0 { (c.obj_gap_ms as i128).max(spread_ms) } else { c.obj_gap_ms as i128 };
+    let _ = r_f;
     let spec = RxSpec { expiry_check: c.check, cleanup_each_push: true, ..RxSpec::default_once() };
     let mut rx = Rx::new(&spec, Faults::none());
     if c.obj_gap_ms >= 0 {
-        for p in &fdt {
-            rx.push(p, r_f);
+        for (p, t) in fdt.iter().zip(&arrivals) {
+            rx.push(p, *t);
         }
         for p in &obj {
             rx.push(p, r_o);
@@ -109,8 +156,8 @@ pub fn run_once(c: &Case, offset_s: i64) -> Result<Outcome, String> {
         for p in &obj {
             rx.push(p, r_o);
         }
-        for p in &fdt {
-            rx.push(p, r_f);
+        for (p, t) in fdt.iter().zip(&arrivals) {
+            rx.push(p, *t);
         }
     }
     let ws = rx.mon.writers();
@@ -123,7 +170,7 @@ pub fn run_once(c: &Case, offset_s: i64) -> Result<Outcome, String> {
     if ws.iter().any(|w| w.completed() && w.data != bytes) {
         return Err("completed with wrong bytes".into());
     }
-    Ok(Outcome { delivered, any_writer: !ws.is_empty(), traces: ws.iter().map(|w| w.trace()).collect() })
+    Ok(Outcome { spread_ms, obj_rel_first_ms, delivered, any_writer: !ws.is_empty(), traces: ws.iter().map(|w| w.trace()).collect() })
 }
 
 pub fn run_case(c: &Case) -> CaseResult {
@@ -131,33 +178,41 @@ pub fn run_case(c: &Case) -> CaseResult {
     // the receiver's estimate of the sender clock (ms relative to the publication instant S0)
     //   with SCT:    S0 + (t - arrival_fdt)          -> offset and transit delay cancel out
     //   without SCT: t = S0 + offset + delay (+ gap)
-    let est_at_fdt: i128 = if c.sct { 0 } else { c.offset_s as i128 * 1000 + c.fdt_delay_ms as i128 };
-    let est_at_obj: i128 = est_at_fdt + c.obj_gap_ms as i128;
-    let expires: i128 = c.duration_s as i128 * 1000;
-    // decisive instants: the FDT on arrival, and (when it comes later) the first object packet
-    // Expires is carried as 32-bit NTP seconds: an instant beyond 2036-02-07 cannot be expressed, what a
-    // receiver makes of such an instance with the check ON is outside the property; with the check OFF
-    // expiry is ignored whatever the attribute says
     let beyond_ntp = T0_SECS + c.duration_s >= 2_085_978_496;
     if beyond_ntp && c.check {
         return Ok(CaseInfo::excluded("domain: Expires beyond the 32-bit NTP second range with the check on"));
     }
+    let out = match run_once(c, c.offset_s) {
+        Ok(o) => o,
+        Err(e) if e.starts_with("DOMAIN:") => return Ok(CaseInfo::excluded("domain: the sender renewed the FDT while it was being paced")),
+        Err(e) => return Err(e),
+    };
+    // estimate when the first FDT packet arrives, then `spread` later when the instance completes (the SCT of
+    // every packet is the sender's clock when it was sent; all packets share one transit delay)
+    let est_first: i128 = if c.sct { 0 } else { c.offset_s as i128 * 1000 + c.fdt_delay_ms as i128 };
+    let est_at_fdt: i128 = est_first + out.spread_ms;
+    let est_at_obj: i128 = est_first + out.obj_rel_first_ms;
+    let expires: i128 = c.duration_s as i128 * 1000;
+    // decisive instants: the FDT on completion, and (when it comes later) the first object packet
+    // Expires is carried as 32-bit NTP seconds: an instant beyond 2036-02-07 cannot be expressed, what a
+    // receiver makes of such an instance with the check ON is outside the property; with the check OFF
+    // expiry is ignored whatever the attribute says
     let decisive: Vec<i128> = if c.obj_gap_ms >= 0 { vec![est_at_fdt, est_at_obj] } else { vec![est_at_fdt] };
     if decisive.iter().any(|e| (e - expires).abs() <= 2000) {
         return Ok(CaseInfo::excluded("domain: within +-2 s of Expires (granularity excluded by the property)"));
     }
     let unexpired = decisive.iter().all(|e| *e < expires);
     let expect_delivery = !c.check || unexpired;
-    let out = run_once(c, c.offset_s)?;
     let ctx = || {
         format!(
-            "duration {} s, SCT {}, expiry check {}, receiver clock offset {} s, FDT transit {} ms, object {} ms {} the FDT; estimate of the sender clock relative to publication: at FDT arrival {} ms, at the object {} ms; Expires at {} ms; writers {:?}",
+            "duration {} s, SCT {}, expiry check {}, receiver clock offset {} s, FDT transit {} ms, FDT packets spread over {} ms, object {} ms {} the first FDT packet; estimate of the sender clock relative to publication: at FDT arrival {} ms, at the object {} ms; Expires at {} ms; writers {:?}",
             c.duration_s,
             c.sct,
             c.check,
             c.offset_s,
             c.fdt_delay_ms,
-            c.obj_gap_ms.abs(),
+            out.spread_ms,
+            out.obj_rel_first_ms.abs(),
             if c.obj_gap_ms >= 0 { "after" } else { "before" },
             est_at_fdt,
             est_at_obj,
@@ -188,6 +243,9 @@ pub fn run_case(c: &Case) -> CaseResult {
     info.label_if(c.sct, "SCT present");
     info.label_if(c.sct && c.size % 2 == 0 && c.fdt_delay_ms % 2 == 1, "SCT-High only form of EXT_TIME");
     info.label_if(c.obj_gap_ms < 0, "object before FDT");
+    info.label_if(out.spread_ms > 0, "FDT packets spread over time");
+    info.label_if(out.spread_ms > 0 && c.obj_gap_ms >= 0 && est_at_obj > expires && est_at_obj - out.spread_ms < expires, "object expired only by the latest SCT of a paced FDT");
+    info.label_if(out.spread_ms > 0 && est_at_fdt > expires && est_first < expires, "paced FDT expires while it is being received");
     Ok(info)
 }
 
@@ -211,8 +269,9 @@ pub fn case_strategy() -> BoxedStrategy<Case> {
         crate::gen::scheme_strategy(),
         any::<bool>(),
         prop_oneof![Just(0usize), Just(16), Just(100)],
+        prop_oneof![3 => Just(0u64), 1 => 1u64..200, 2 => 200u64..3000],
     )
-        .prop_map(|(duration_s, sct, check, offset_s, fdt_delay_ms, (before, gap, around, mode), scheme, inband_fti, size)| {
+        .prop_map(|(duration_s, sct, check, offset_s, fdt_delay_ms, (before, gap, around, mode), scheme, inband_fti, size, fdt_step_ms)| {
             let expires_ms = duration_s as i64 * 1000;
             // where the estimate stands at FDT arrival
             let est_f: i64 = if sct { 0 } else { offset_s.saturating_mul(1000).saturating_add(fdt_delay_ms as i64) };
@@ -225,7 +284,7 @@ pub fn case_strategy() -> BoxedStrategy<Case> {
             let obj_gap_ms = if before { -(obj_gap_ms % 60_000) } else { obj_gap_ms };
             let size = if scheme == Scheme::Raptor { size / 16 * 16 * 4 } else { size };
             let check = if duration_s >= 600_000_000 { false } else { check };
-            Case { duration_s, sct, check, offset_s, fdt_delay_ms, obj_gap_ms, scheme, inband_fti, size }
+            Case { duration_s, sct, check, offset_s, fdt_delay_ms, obj_gap_ms, scheme, inband_fti, size, fdt_step_ms }
         })
         .boxed()
 }
